@@ -19,7 +19,7 @@ SPEC = dict(
     rule='curvesmono: real curves (linear min/max; steps with non-decreasing integer or fractional speeds; sum/max/min/average '
          'trees of depth <= 4 with 1..8 members; plus a stream outside the class) evaluated at pairs of sensor states A <= B: '
          'dense sweeps on the 1 m-degree grid around sampled breakpoints (and the adjacent float64 values), plus random pairs '
-         '(equal, +1..100 m-degree, arbitrary floats, next float). curvesctrl: the real DefaultFanController with the direct '
+         '(equal, +1..100 m-degree, arbitrary floats, next float); a third of the cases are loaded as fan2go.yaml text through the real loader; the tick rate is non-zero (200ms default, 1s, 50ms); for a third of the function-curve roots a second consumer (another fan / function curve) evaluates members and sub-curves on its own at a hotter state just before the call at A, or at a colder state just before the call at B, with real sleeps beyond half a tick in between. curvesctrl: the real DefaultFanController with the direct '
          'algorithm over a real curve of value v for every v = 0..255, random fan limits and PWM maps (identity, quantiser, sparse '
          'non-decreasing, plateaus, non-monotone). Non-trivial = some pair with a strict increase / written(0) < written(255); '
          'distinct = distinct Coq case terms.',
